@@ -71,6 +71,18 @@ def judge_graph(n, gid):
     want = M.gens_str(M.graph_state_gens(n, masks), n)
     if st.to_list() != want:
         return ["Stabilizer(graph %d) = %r, expected %r" % (gid, st.to_list(), want)]
+    if gid:
+        # the library's own graph -> circuit conversion must denote the same signed group (graphs with at least
+        # one edge; for the edgeless graph to_circuit() raises on the pinned tree, which no property covers)
+        g = impl.Graph.decompress(n, gid)
+        ops = impl.circuit_ops(g.to_circuit(), keep_measure=True)
+        bad = M.check_alphabet(ops, n)
+        if bad:
+            return ["Graph.to_circuit(): " + bad]
+        if M.canon(M.run(ops, n), n) != M.canon(M.graph_state_gens(n, masks), n):
+            return ["Graph.to_circuit() of graph %d does not prepare the graph state X_v Z_N(v)" % gid]
+        if M.canon(impl.stabilizer_gens(impl.Stabilizer(g.to_circuit())), n) != M.canon(M.graph_state_gens(n, masks), n):
+            return ["Stabilizer(graph.to_circuit()) differs from Stabilizer(graph) for graph %d" % gid]
     return []
 
 
